@@ -428,6 +428,39 @@ def check(ctx, f, analysis, label, base, mode, opt):
             agg.hist("rewritten_not_analysable", type(e).__name__)
 
 
+BENIGN_CALLEES = [("builtins", "len", ["abc"]), ("textwrap", "dedent", ["  x"]), ("builtins", "sorted", [[3, 1]]), ("operator", "add", [1, 2]),
+                  ("collections", "OrderedDict", []), ("os.path", "basename", ["/a/b"]), ("builtins", "str", [5]), ("math", "sqrt", [4.0]),
+                  ("__main__", "helper", [1])]
+
+
+def benign_callee_verdicts(ctx, f, analysis, label, base):
+    """The injected call need not look dangerous: whatever callable the caller names, and whatever becomes of its value,
+    fickling's own check must not rate the rewritten pickle LIKELY_SAFE."""
+    agg = ctx.agg
+    for (m, n, args) in BENIGN_CALLEES:
+        for how in ("first-keep", "first-replace", "last-keep", "last-replace", "append-pop", "append-keep"):
+            key = h(repr((base, "benign-callee", m, n, how)).encode())
+            if not agg.case(key, True, {"base": label, "mode": "benign-callee", "callee": f"{m}.{n}", "how": how}):
+                continue
+            try:
+                p = f.Pickled.load(base)
+                if how.startswith("append"):
+                    p.append_python(*args, module=m, attr=n, pop_result=how.endswith("pop"))
+                else:
+                    p.insert_python(*args, module=m, attr=n, run_first=how.startswith("first"),
+                                    use_output_as_unpickle_result=how.endswith("replace"))
+                out = p.dumps()
+                sev = analysis.check_safety(f.Pickled.load(out)).severity.name
+            except Exception as e:
+                agg.hist("injection_refused", f"benign-callee:{type(e).__name__}")
+                continue
+            agg.count("benign_callee_verdicts")
+            if sev == "LIKELY_SAFE":
+                agg.violation(f"verdict-likely-safe:benign-callee:{how}",
+                              f"a pickle with an injected call of {m}.{n} ({how}) is rated LIKELY_SAFE by fickling's own check",
+                              {"label": label, "hex": base.hex()[:2000], "mode": "benign-callee", "options": {"callee": f"{m}.{n}", "how": how}})
+
+
 def chained_bases(ctx, f, blist):
     """Second-generation bases: pickles that already carry one injection (every rewritten pickle
     ends in STOP, so the helpers must compose)."""
@@ -474,6 +507,9 @@ def run_shard(ctx):
             if i % ctx.nshards != ctx.shard:
                 continue
             check(ctx, f, analysis, label, base, mode, opt)
+    for bi, (label, base) in enumerate(blist[:12] + blist[-6:]):
+        if bi % ctx.nshards == ctx.shard and len(base) < 3000:
+            benign_callee_verdicts(ctx, f, analysis, label, base)
     # histories: refused helper call -> valid injection, on the same parsed object
     rng = asm.rng_for(ctx.seed, "c08refused")
     nref = {"quick": 40, "thorough": 600}[ctx.tier]
